@@ -276,8 +276,6 @@ def c01_3(ctx, r):
             if isinstance(n, ast.Call) and isinstance(n.func, ast.Attribute) and n.func.attr in ("append", "add", "extend", "insert"):
                 inl = any(l in loops_ok for l in ctx.enclosing(fn, n, (ast.For,)))
                 r.check(inl, f"{fn.short}: insertions happen only inside the candidate loop", key_of(fn, f"foreign insertion {ctx.src(n)[:40]}"), fn.loc(n), f"`{ctx.src(n)[:60]}` inserts outside the loop over not-submitted jobs")
-        rets = [n for n in iter_own(fn.node) if isinstance(n, ast.Return)]
-        r.check(len(rets) == 1, f"{fn.short}: single return", key_of(fn, "returns"), fn.loc(), "several returns")
     # iter_jobs yields a job only if state is None or job.state == state
     cfg = ctx.cfg(it)
     ys = [n for n in cfg.nodes if n.kind == "stmt" and any(isinstance(x, (ast.Yield, ast.YieldFrom)) for x in iter_own(n.ast))]
